@@ -112,6 +112,8 @@ pub open spec fn c08_strict() -> bool {
 //@end
 
 impl SimpleValidator {
+    // the policy as named in contracts shared with units that only see `Arc<dyn Validator>`
+    pub open spec fn vp_policy(&self) -> SimplePolicy { self.policy }
 
 //@fn vls-core/src/policy/simple_validator.rs :: impl SimpleValidator :: validate_beneficial_value props=C08
     requires weight > 0,
@@ -123,20 +125,7 @@ impl SimpleValidator {
 //@end
 
 //@fn vls-core/src/policy/simple_validator.rs :: impl Validator for SimpleValidator :: validate_onchain_tx props=C08
-    requires
-        weight_lower_bound > 0,
-        opaths@.len() == tx.output@.len(), channels@.len() == tx.output@.len(),      // indexing panics otherwise (abort)
-    ensures
-        // every output is a known destination ...
-        r.is_ok() && c08_strict() ==> outputs_ok_upto(*wallet, *tx, opaths@, channels@, tx.output@.len() as int),     //[C08.onchain.no-unknown-destination]
-        // ... the value leaving the node is inputs minus what returns, and is within the fee bound
-        r.is_ok() && c08_strict() ==> r->Ok_0 as nat + beneficial_sum_upto(*wallet, *tx, opaths@, channels@, tx.output@.len() as int)
-            == sum_u64(values_sat@),                                                                                 //[C08.onchain.non-beneficial-exact]
-        r.is_ok() && c08_strict() && !dev_disabled(self.policy) ==>
-            feerate_sat(r->Ok_0 as nat, weight_lower_bound as nat) <= self.policy.max_feerate_per_kw,                //[C08.onchain.fee-bound]
-        // funding any channel requires all inputs to be segwit
-        r.is_ok() && c08_strict() && any_some(channels@) ==> all_true_flags(segwit_flags@),                          //[C08.onchain.funding-non-malleable]
-        r.is_ok() && c08_strict() ==> tx.version == Version::TWO && tx_base_size(*tx) <= MAX_ONCHAIN_TX_SIZE,
+//@include frag/c/sv_validate_onchain_tx.rs
 //@loop 1 iter=it
             invariant
                 it.snapshot.end == tx.output@.len(),
